@@ -30,10 +30,11 @@ def judge(o, lines, codes, opname, hint):
         return [(f"C02:{opname}:fatal:{hint}", f"violation {opname} ({hint}) ends in a fatal parse error instead of the diagnostic {sorted(codes)}")]
     hit = [e for e in o.errors if e[0] in codes and conc(e[2]) in lines]
     if not hit:
+        # (the same code reported on ANOTHER line - an unrelated finding elsewhere in the file - does not count and does not
+        # change the identity of the miss: one fingerprint per operator and kind of site)
         same_code = sorted({e[0] for e in o.errors if e[0] in codes})
-        if same_code:
-            return [(f"C02:{opname}:other-line:{hint}", f"{sorted(codes)} is reported, but not on the edited line {lines}")]
-        return [(f"C02:{opname}:missing:{hint}", f"violation {opname} ({hint}) is not reported: none of {sorted(codes)} on line {lines}")]
+        return [(f"C02:{opname}:missing:{hint}", f"violation {opname} ({hint}) is not reported: none of {sorted(codes)} on line {lines}"
+                 + (f" (the code appears on other lines only)" if same_code else ""))]
     if not any(e[1] == "Error" for e in o.errors):
         return [(f"C02:{opname}:not-error:{hint}", "the file is not Error!")]
     return []
